@@ -4,6 +4,6 @@ c=$1; shift
 rm -rf /tmp/mut/rv_$c; mkdir -p /tmp/mut/rv_$c; cp -r /repo/strax /tmp/mut/rv_$c/strax; find /tmp/mut/rv_$c -name __pycache__ -prune -exec rm -rf {} +
 (cd /tmp/mut/rv_$c && git -C /repo show $c -- strax | patch -R -p1 -s) || { echo "REVERT FAILED $c"; exit 2; }
 for chk in "$@"; do
-  cd /verif && DST_STRAX_ROOT=/tmp/mut/rv_$c DST_OUT_DIR=/tmp/mut/rv_$c/out timeout 900 ./check $chk --budget-s 60 2>&1 | grep -E "^VIOLATION|violation:|HARNESS|\[dst\] C..:" | cut -c1-220 | head -3
+  cd /verif && DST_STRAX_ROOT=/tmp/mut/rv_$c DST_OUT_DIR=/tmp/mut/rv_$c/out timeout 900 ./check $chk --budget-s ${BUDGET:-60} 2>&1 | grep -E "^VIOLATION|violation:|HARNESS|\[dst\] C..:" | cut -c1-220 | head -3
 done
 rm -rf /tmp/mut/rv_$c
